@@ -26,7 +26,10 @@ COMMENTS = ['# comment 12', '// 00 11 22', '; AB', '', '   ', '\t',
             'FACE:  BEEFCAFE-- drawer dump --', 'DEADBEEF', '00000000     CAFEBABE--comment', 'ab-cd', 'C0 FF EE!',
             # ... also when the break comes after a blank where a digit belongs (what follows padding must be padding)
             'Be  careful: partial dump', '10  lines follow', 'Ad  hoc dump taken at night', '0000:  be careful, partial dump',
-            '00000000     be careful, partial dump', '0010:  BEEF     cafe', '00000010     BEEF      cafe']
+            '00000000     be careful, partial dump', '0010:  BEEF     cafe', '00000010     BEEF      cafe',
+            # ... and when only the address column breaks it: everything behind the address looks like data
+            'addr:  41424344 45464748', 'OOOO:  41424344', 'Note:  DEADBEEF CAFEF00D', 'offset00     41424344  45464748', 'xxxxxxxx     41424344',
+            '0x000010     41424344  45464748']
 
 
 def bounds(tier):
